@@ -79,14 +79,33 @@ func DocFor(ver int) map[string]interface{} {
 	if ver%2 == 1 {
 		d["x"] = fmt.Sprintf("x%d", ver)
 	}
+	// an array-valued stored field whose length changes from version to version
+	// (1,0,2,3,1,...): a shorter array must not keep elements of an older version
+	if n := TagsLen(ver); n > 0 {
+		tags := make([]interface{}, n)
+		for i := range tags {
+			tags[i] = fmt.Sprintf("g%d-%d", ver, i)
+		}
+		d["tags"] = tags
+	}
 	return d
 }
+
+// TagsLen is the length of the "tags" array of version ver.
+func TagsLen(ver int) int { return []int{3, 1, 0, 2}[ver%4] }
 
 // FieldsFor is the stored-field projection expected for version ver.
 func FieldsFor(ver int) map[string]string {
 	out := map[string]string{}
 	for k, v := range DocFor(ver) {
-		out[k] = v.(string)
+		switch x := v.(type) {
+		case string:
+			out[k] = x
+		case []interface{}:
+			for i, e := range x {
+				out[fmt.Sprintf("%s[%d]", k, i)] = e.(string)
+			}
+		}
 	}
 	return out
 }
@@ -122,7 +141,14 @@ func Observe(idx bleve.Index, ids, keys []string) (*Obs, error) {
 			if f.Name() == "_id" {
 				return
 			}
-			fs[f.Name()] = string(f.Value())
+			name := f.Name()
+			if ap := f.ArrayPositions(); len(ap) > 0 {
+				name = fmt.Sprintf("%s%v", name, ap) // tags[0], tags[1], ...
+			}
+			if _, dup := fs[name]; dup {
+				name = name + "+dup"
+			}
+			fs[name] = string(f.Value())
 		})
 		o.Docs[id] = fs
 	}
